@@ -418,7 +418,8 @@ impl<'a> El<'a> {
         let fr = 1 + ((i[5] as usize * d[n - 2].min(3)) >> 8);
         let fc = 1 + ((i[6] as usize * d[n - 1].min(3)) >> 8);
         let count = 1 + (i[7] as usize % 2);
-        let Some(f) = self.new_leaf(vec![count, d[n - 3], fr, fc], &[i[1], i[0], i[3], i[2], i[5], i[4], i[7], i[6]], None) else { return false };
+        let fdims = if count == 1 && i[7] & 2 != 0 { vec![d[n - 3], fr, fc] } else { vec![count, d[n - 3], fr, fc] };
+        let Some(f) = self.new_leaf(fdims, &[i[1], i[0], i[3], i[2], i[5], i[4], i[7], i[6]], None) else { return false };
         let sr = 1 + (i[4] as usize >> 2) % 2;
         let sc = 1 + (i[4] as usize >> 4) % 2;
         self.apply(OpKind::Conv { sr, sc }, vec![img, f])
